@@ -69,6 +69,15 @@ Definition mig_model (c : World.world * (str + (str * cfgdata)) * store * list b
                 dict(classes=[K(0, 'A', params=[P('x')]), K(1, 'B', group='g', meta_inputs=[{'cls': 0}])],
                      files={'cfg/main.json': {'tasks': ['@M.*'], 'x': 1}}, base={'file': 'cfg/main.json'}, context=None,
                      compute=[0, 1], drys=[True, True, False], verbose=False),
+                # a stored subset that is not closed under dependencies: the upstream result was deleted afterwards
+                dict(classes=[K(0, 'A', params=[P('x')]), K(1, 'B', group='g', meta_inputs=[{'cls': 0}]),
+                              K(2, 'C', meta_inputs=[{'cls': 1}]), K(3, 'D', meta_inputs=[{'cls': 0}], data='dir')],
+                     files={'cfg/main.json': {'tasks': ['@M.*'], 'x': 1}}, base={'file': 'cfg/main.json'}, context=None,
+                     compute=[0, 1, 2, 3], delete=[0], drys=[False, False], verbose=False),
+                dict(classes=[K(0, 'A', params=[P('x')]), K(1, 'B', group='g', meta_inputs=[{'cls': 0}]),
+                              K(2, 'C', meta_inputs=[{'cls': 1}]), K(3, 'D', meta_inputs=[{'cls': 0}], data='dir')],
+                     files={'cfg/main.json': {'tasks': ['@M.*'], 'x': 1}}, base={'file': 'cfg/main.json'}, context=None,
+                     compute=[0, 1, 2, 3], delete=[1, 0], drys=[True, False], verbose=True),
                 # two config files with the same tasks and values under two namespaces: one task object, two names, in
                 # parameter mode
                 dict(classes=[K(0, 'A', params=[P('x')]), K(1, 'B', group='g', meta_inputs=[{'cls': 0}])],
@@ -93,6 +102,8 @@ Definition mig_model (c : World.world * (str + (str * cfgdata)) * store * list b
             if 'file' not in c['base']:
                 continue
             c['compute'] = [rng.randrange(64) for _ in range(rng.choice([0, 1, 2, 3, 5]))]
+            if rng.random() < 0.3:
+                c['delete'] = [rng.randrange(64) for _ in range(rng.choice([1, 2]))]
             c['verbose'] = rng.random() < 0.6
             c['drys'] = rng.choice([[False], [True], [True, False], [False, False], [True, False, False]])
             out.append(c)
@@ -124,6 +135,14 @@ Definition mig_model (c : World.world * (str + (str * cfgdata)) * store * list b
                 param_ok = False
             import shutil
             shutil.rmtree('scratch_pm', ignore_errors=True)
+            for k in case.get('delete', []):     # results removed after the pipeline was computed (a big intermediate one)
+                if names:
+                    n = names[k % len(names)]
+                    try:
+                        old.tasks[n].force(delete_data=True)
+                        old_values.pop(n, None)
+                    except Exception:
+                        pass
             src0 = tree('data')
             steps = []
             for dry in case['drys']:
